@@ -163,8 +163,11 @@ pub fn primitive(range: f32, smin: f32, smax: f32, halfspaces: bool) -> BoxedStr
     };
     alts.push((
         1,
-        ([lattice(), lattice(), lattice()], pos(0.4, 1.5), pos(smin, smax))
-            .prop_map(|(apex, k, h)| Csg::Cone { apex, k, h })
+        // base radius and height both in [smin, smax], like the other
+        // primitives' sizes, so the solid stays within range + smax of the
+        // origin (C08 needs the surface strictly inside the region)
+        ([lattice(), lattice(), lattice()], pos(smin, smax), pos(smin, smax))
+            .prop_map(|(apex, r, h)| Csg::Cone { apex, k: Fl(r.0 / h.0), h })
             .boxed(),
     ));
     if halfspaces {
